@@ -21,14 +21,23 @@ DESIGN_REF = '6/C15'
 TECHNIQUE = 'Lean 4 proof over a model regenerated from the source by a validated translator'
 LEVEL_TEXT = ("Lean 4 theorems over every linearly ordered field with abstract sqrt/pow, about definitions that "
               "translate/riemann2lean.py regenerates from riemann_solver.py on every run: reflect_<s> for non_diffusive, "
-              "roe, llxf, hllsy, hlle, hll_ball, hllc_ball (no hypothesis) and van_leer (admissible data, by induction "
-              "over the iteration); equal_states_<s> for the same seven non-iterative solvers; galilean_van_leer; "
-              "vacuum_reported_exact; riemann_solve_dispatch / reflect_riemann_solve. The translator is validated each "
-              "run by bit-exact execution of the generated definitions at Float against the Python source "
-              "(13 600+ compared calls quick), and every clause of the statement is evaluated on the real code.")
-LEVEL_NOTE = ("Partial: reflection symmetry of ducowicz, hllc, exact is stated (ReflectSymRemaining) but not proved; "
-              "exact's Galilean/scaling/pressure-function clauses, van_leer's scaling and the positivity of a "
-              "successful p* are checked on the real code only. Trusted: Lean kernel + 3 standard axioms; the "
-              "translator (validated bit for bit every run); exact-field arithmetic with abstract sqrt/pow in place "
-              "of IEEE doubles; pure-Python execution (printf replaced by a no-op, see notes).")
+              "roe, llxf, hllsy, hlle, hll_ball, hllc_ball (no hypothesis), hllc, van_leer (admissible data, sqrt > 0), "
+              "exact (pow positive, pow x^-1 g = (pow x g)^-1; induction over the Newton iteration) and "
+              "reflect_ducowicz_partial (sqrt 0 = 0 and DucoLastBranchGuarded: the unguarded case D is reached only "
+              "when its own guard holds); equal_states_<s> for all 11 solvers (ducowicz: sqrt(x*x) = x; exact: pow 1 g = 1, "
+              "niter >= 2; van_leer: p >= smallp, niter >= 1, tol > 0); galilean_van_leer, galilean_exact; "
+              "scaling_exact (sqrt(m*m*x) = m sqrt x only), scaling_van_leer (same, on runs where the smallp floor is "
+              "inactive: VanLeerFloorInactive); success_imp_pos_van_leer (no hypothesis); vacuum_reported_exact; "
+              "riemann_solve_dispatch / reflect_riemann_solve. All sqrt/pow hypotheses are shown to hold for Real.sqrt "
+              "and the real power function. The translator is validated each run by bit-exact execution of the "
+              "generated definitions at Float against the Python source (13 600+ compared calls quick), and every "
+              "clause of the statement is evaluated on the real code.")
+LEVEL_NOTE = ("Partial: the unconditional reflection symmetry of ducowicz (ReflectSymDucowicz) is stated, not proved: "
+              "it needs 'a root strictly between umin and umax is found by case A or B', which fails where that formula "
+              "is 0/0 (known finding C15:raises:ducowicz); the umin == umax asymmetry found while proving it is fixed "
+              "(3912f12, corpus states under C15:reflect:ducowicz-umin-eq-umax). Positivity of a successful exact "
+              "(SuccessImpPosExact; false for niter <= 0) and exact's pressure-function residual bound are checked on "
+              "the real code only. Trusted: Lean kernel + 3 standard axioms; the translator (validated bit for bit every "
+              "run); exact-field arithmetic with abstract sqrt/pow in place of IEEE doubles; pure-Python execution "
+              "(printf replaced by a no-op, see notes).")
 TIMEOUT = {'quick': 1500, 'thorough': 3 * 3600}
